@@ -1,8 +1,10 @@
 (** C14: whole-input statements about [Document::parse] (the model under the implementation's flags and
-    the tables generated from [lexer.rs]), and the two witnesses against the end-of-input span rule. *)
+    the tables generated from [lexer.rs]), the end-of-input span rule ([Lexer::span]: the whole character
+    holding the byte before the span; empty on an empty source), and the two texts on which the former
+    byte-counting rule produced a span outside the source / inside a character. *)
 From Coq Require Import String.
 From WacV Require Import Str StrLit Token Lexer LexTables LexImpl Semver Ast Parser
-  NoPanicLexer NoPanicSpans NoPanicParser.
+  LexerSound NoPanicLexer NoPanicSpans NoPanicParser.
 From Coq Require Import ZArith ZifyBool ZifyN Lia.
 Local Open Scope nat_scope.
 
@@ -11,15 +13,63 @@ Proof. reflexivity. Qed.
 
 Definition has_unmodelled (items : list lexitem) : Prop := exists sp, In (LUnmodelled sp) items.
 
+(* ------------------------------------------------------------------ the end-of-input span rule *)
+
+(** The character holding a byte: a good span, whatever the byte. *)
+Lemma char_holding_ok src : forall s pre o n,
+  src = pre ++ s -> o = byte_len pre -> span_ok src (char_holding o s n).
+Proof.
+  induction s as [|c r IH]; intros pre o n Hsrc Ho; cbn [char_holding].
+  - apply (span_ok_slice src pre [] []); [now rewrite Hsrc|exact Ho|reflexivity].
+  - destruct (n <? o + utf8_len c)%N.
+    + apply (span_ok_slice src pre [c] r); [exact Hsrc|exact Ho|cbn [byte_len]; lia].
+    + apply (IH (pre ++ [c])); [now rewrite <- app_assoc|rewrite byte_len_app; cbn [byte_len]; lia].
+Qed.
+
+(** [Lexer::span] of a span with both ends on character boundaries is a good span. *)
+Lemma lexer_span_ok src start stop :
+  boundary src start -> boundary src stop -> (start <= stop)%N -> span_ok src (lexer_span src start stop).
+Proof.
+  intros Hs He Hle. unfold lexer_span. destruct (stop =? byte_len src)%N.
+  - now apply (char_holding_ok src src [] 0%N).
+  - split; cbn [off slen]; [exact Hs|]. now replace (start + (stop - start))%N with stop by lia.
+Qed.
+
+Lemma last_tok_in : forall items acc t,
+  last_tok items acc = Some t -> acc = Some t \/ In (LTok t) items.
+Proof.
+  induction items as [|x r IH]; intros acc t H; cbn [last_tok] in H; [now left|].
+  destruct x as [t'| | | |]; apply IH in H; destruct H as [H|H]; auto using in_cons.
+  inversion H; subst. right. now left.
+Qed.
+
+(** Both end-of-input spans of the environment [Document::parse] builds are good spans. *)
+Lemma mk_ctx_ok src items :
+  Forall (item_wf src) items ->
+  span_ok src (eof_tok (mk_ctx src items)) /\ span_ok src (eof_la (mk_ctx src items)).
+Proof.
+  intros Hwf. unfold mk_ctx. cbn [eof_tok eof_la]. split.
+  - apply lexer_span_ok; [apply boundary_end|apply boundary_end|lia].
+  - destruct (last_tok items None) as [t|] eqn:E.
+    + apply last_tok_in in E. destruct E as [E|E]; [discriminate|].
+      rewrite Forall_forall in Hwf. specialize (Hwf _ E). apply item_wf_span in Hwf.
+      destruct Hwf as [H1 H2]. apply lexer_span_ok; [exact H1|exact H2|unfold span_end; lia].
+    + apply lexer_span_ok; [apply boundary_0|apply boundary_0|lia].
+Qed.
+
+(** The environment of [parse_document] under the implementation's flags. *)
+Definition top_env (src : str) : env :=
+  {| dv := impl_flags; cx := mk_ctx src (lex impl_cfg src); fuel := S (length (lex impl_cfg src)) |}.
+
 (** The outcome predicate of [NoPanicParser] for the whole document. [um = false] may be used when the
     lexer reported no not-modelled lexeme. *)
 Lemma parse_document_outcome um src :
   (um = false -> ~ has_unmodelled (lex impl_cfg src)) ->
-  outcome src um (fun d => Forall (span_ok src) (document_spans d)) (fun m => m = 0)
+  outcome src (top_env src) um (fun d => Forall (span_ok src) (document_spans d)) (fun m => m = 0)
           (parse_document impl_flags impl_cfg src).
 Proof.
   intros Hum. unfold parse_document. rewrite cfg_impl_eq.
-  apply parse_document_items_good; [reflexivity| |cbn [fuel]; lia].
+  apply (parse_document_items_good src (top_env src)); [reflexivity| |cbn [fuel top_env]; lia].
   pose proof (lex_wf impl_cfg src impl_tables_sane) as Hwf. unfold wf.
   apply Forall_forall. intros it Hin. split.
   - rewrite Forall_forall in Hwf. now apply Hwf.
@@ -46,20 +96,22 @@ Proof.
   - right. exists x. split; [reflexivity|]. destruct x; cbn [err_ok perror_span] in *; try discriminate. contradiction.
 Qed.
 
-(** Spans of the tree and of every error that is not reported at the end of the input. *)
-Lemma spans_partial_lemma src :
+(** Spans of the tree and of EVERY error, those reported at the end of the input included. *)
+Lemma spans_lemma src :
   match parse_document impl_flags impl_cfg src with
   | POk d _ => Forall (span_ok src) (document_spans d)
-  | PErr x => at_end_of_input x = false -> exists sp, perror_span x = Some sp /\ span_ok src sp
+  | PErr x => exists sp, perror_span x = Some sp /\ span_ok src sp
   | _ => True
   end.
 Proof.
   pose proof (parse_document_outcome true src ltac:(discriminate)) as H.
   destruct (parse_document impl_flags impl_cfg src) as [doc r|x|n| |]; cbn [outcome] in H; auto.
   - tauto.
-  - intros Hend. destruct x as [le sp|at_ found sp|w sp|txt sp|w]; cbn [err_ok perror_span at_end_of_input] in *;
+  - destruct x as [le sp|at_ found sp|w sp|txt sp|w]; cbn [err_ok perror_span] in *;
       try (eexists; split; [reflexivity|assumption]); try contradiction.
-    destruct found; [|discriminate]. eexists. split; [reflexivity|tauto].
+    eexists. split; [reflexivity|]. destruct found as [k|]; [tauto|].
+    destruct (mk_ctx_ok src (lex impl_cfg src) (lex_wf impl_cfg src impl_tables_sane)) as [Ht Hl].
+    destruct H as [_ [-> | ->]]; assumption.
 Qed.
 
 (** A returned [Expected*] error always lists at least one expected token ([Lookahead::error] would
@@ -94,20 +146,39 @@ Proof. intros (pre & post & -> & ->). apply (boundaryb_from_complete pre post 0%
 Lemma span_ok_b src sp : span_ok src sp -> span_okb src sp = true.
 Proof. intros [H1 H2]. unfold span_okb. now rewrite (boundary_b _ _ H1), (boundary_b _ _ H2). Qed.
 
-(* ------------------------------------------------------------------ the end-of-input rule is wrong *)
+(* ------------------------------------------------------------------ the two former counterexamples *)
 
+(** The two texts on which the byte-counting end-of-input rule (span [start - 1], length 1) left the
+    source: they are kept as regression cases of [./check C14]. *)
 Definition w_empty : str := [].
-(** [package a:b // é]: 17 bytes, the last character (U+00E9) occupies bytes 15 and 16. *)
+(** [package a:b // \u00e9]: 17 bytes, the last character (U+00E9) occupies bytes 15 and 16. *)
 Definition w_midchar : str := L"package a:b // " ++ [233%N].
 
+(** Empty source: the empty span at 0 (formerly (0,1), outside the source). *)
 Lemma eof_span_empty :
-  parse_document impl_flags impl_cfg w_empty = PErr (PE_Expected [TPackageKeyword] None {| off := 0; slen := 1 |}).
+  parse_document impl_flags impl_cfg w_empty = PErr (PE_Expected [TPackageKeyword] None {| off := 0; slen := 0 |}).
 Proof. vm_compute. reflexivity. Qed.
 
+(** The token [a:b] (bytes 8..11) is the last one; the source ends in a comment and a two-byte
+    character, so the end-of-input span of [parse_token] is that whole character, (15,2) (formerly
+    (16,1), which starts inside it). *)
 Lemma eof_span_midchar :
-  parse_document impl_flags impl_cfg w_midchar = PErr (PE_Expected [TSemicolon] None {| off := 16; slen := 1 |}) /\
+  parse_document impl_flags impl_cfg w_midchar = PErr (PE_Expected [TSemicolon] None {| off := 15; slen := 2 |}) /\
   byte_len w_midchar = 17%N.
 Proof. vm_compute. split; reflexivity. Qed.
 
-Lemma midchar_not_boundary : ~ boundary w_midchar 16.
-Proof. intros H. apply boundary_b in H. vm_compute in H. discriminate. Qed.
+(** Both errors now carry a good span (instances of [spans_lemma], with the spans made explicit). *)
+Lemma eof_witnesses_in_bounds :
+  (exists x, parse_document impl_flags impl_cfg w_empty = PErr x /\
+             perror_span x = Some {| off := 0; slen := 0 |} /\ span_ok w_empty {| off := 0; slen := 0 |}) /\
+  (exists x, parse_document impl_flags impl_cfg w_midchar = PErr x /\
+             perror_span x = Some {| off := 15; slen := 2 |} /\ span_ok w_midchar {| off := 15; slen := 2 |} /\
+             (15 + 2 <= byte_len w_midchar)%N).
+Proof.
+  split.
+  - pose proof (spans_lemma w_empty) as H. rewrite eof_span_empty in H. destruct H as (sp & Hsp & Hok).
+    cbn [perror_span] in Hsp. inversion Hsp; subst sp. eexists. split; [exact eof_span_empty|]. split; [reflexivity|exact Hok].
+  - destruct eof_span_midchar as [E Hlen]. pose proof (spans_lemma w_midchar) as H. rewrite E in H.
+    destruct H as (sp & Hsp & Hok). cbn [perror_span] in Hsp. inversion Hsp; subst sp.
+    eexists. split; [exact E|]. split; [reflexivity|]. split; [exact Hok|]. rewrite Hlen. lia.
+Qed.
